@@ -71,7 +71,7 @@ fn gen_name(rng: &mut Rng) -> Vec<u8> {
     match rng.below(6) {
         0 => rng.pick(&[&b"Transfer-Encoding"[..], b"transfer-encoding", b"TRANSFER-ENCODING"]).to_vec(),
         1 => rng.pick(&[&b"Set-Cookie"[..], b"set-cookie", b"SET-COOKIE", b"X-Dup", b"x-dup"]).to_vec(),
-        2 => rng.pick(&[&b"Content-Type"[..], b"Location", b"ETag", b"Content-Encoding-X", b"Keep-Alive", b"Upgrade", b"Proxy-Connection", b"Trailer", b"TE", b"Connection", b"Proxy-Authenticate"]).to_vec(),
+        2 => rng.pick(&[&b"Content-Type"[..], b"Location", b"ETag", b"Content-Encoding-X", b"Content-Length", b"content-length", b"Content-Length", b"Keep-Alive", b"Upgrade", b"Proxy-Connection", b"Trailer", b"TE", b"Connection", b"Proxy-Authenticate"]).to_vec(),
         _ => {
             let n = rng.range(1, 24) as usize;
             (0..n).map(|_| *rng.pick(TCHARS)).collect()
@@ -139,8 +139,13 @@ pub fn gen_head(rng: &mut Rng, max_fields: usize, te_chunked_only: bool) -> Head
             if te_chunked_only && name.eq_ignore_ascii_case(b"transfer-encoding") {
                 value = b"identity".to_vec(); // keep the body close-delimited and the decoder plain
             }
-            if name.eq_ignore_ascii_case(b"content-encoding") || name.eq_ignore_ascii_case(b"content-length") {
+            if name.eq_ignore_ascii_case(b"content-encoding") {
                 value = b"0".to_vec();
+            }
+            // repeated Content-Length fields that agree (also in different spellings of the same number) are all
+            // reported, in wire order; the body of these heads is empty
+            if name.eq_ignore_ascii_case(b"content-length") {
+                value = rng.pick(&[&b"0"[..], b"0", b"00", b"000"]).to_vec();
             }
             Field { name, pad_l: rng.below(3) as usize, value, pad_r: rng.below(3) as usize }
         })
@@ -169,6 +174,9 @@ pub fn gen_head(rng: &mut Rng, max_fields: usize, te_chunked_only: bool) -> Head
     // sometimes a header block well above the 8 KiB BufReader
     if rng.chance(1, 10) && nf > 0 {
         for f in fields.iter_mut().take(6) {
+            if f.name.eq_ignore_ascii_case(b"content-length") || f.name.eq_ignore_ascii_case(b"content-encoding") || f.name.eq_ignore_ascii_case(b"transfer-encoding") {
+                continue;
+            }
             let n = rng.range(3000, 9000) as usize;
             f.value = (0..n).map(|_| rng.range(0x21, 0x7e) as u8).collect();
         }
@@ -230,7 +238,24 @@ pub fn generate(seed: u64, tier: &str, sink: &mut Sink) {
     for _ in 0..n {
         let max_headers = *rng.pick(&[1usize, 2, 5, 100, 100, 100]);
         let cap = if rng.chance(1, 8) { 100 } else { 12 };
-        let head = gen_head(&mut rng, max_headers.min(cap), true);
+        let mut head = gen_head(&mut rng, max_headers.min(cap), true);
+        // lines of exactly the length the client accepts, and one / two bytes less (the limit includes the CRLF)
+        let limit = crate::consts().max_line_len;
+        let exact = rng.chance(1, 8);
+        if exact {
+            let short = rng.below(3) as usize;
+            if !head.fields.is_empty() && rng.chance(3, 4) {
+                let k = rng.below(head.fields.len() as u64) as usize;
+                let f = &mut head.fields[k];
+                if !f.name.eq_ignore_ascii_case(b"content-length") && !f.name.eq_ignore_ascii_case(b"content-encoding") && !f.name.eq_ignore_ascii_case(b"transfer-encoding") {
+                    let fixed = f.name.len() + 1 + f.pad_l + f.pad_r + 2;
+                    f.value = (0..(limit - short - fixed)).map(|i| b'a' + (i % 26) as u8).collect();
+                }
+            } else {
+                let fixed = head.version.len() + head.sp1 + head.status.to_string().len() + 1 + 2;
+                head.reason = (0..(limit - short - fixed)).map(|i| b'A' + (i % 26) as u8).collect();
+            }
+        }
         let wire = head.wire();
         let too_long = wire.split(|&b| b == b'\n').any(|l| l.len() + 1 > crate::consts().max_line_len);
         if too_long {
@@ -253,6 +278,7 @@ pub fn generate(seed: u64, tier: &str, sink: &mut Sink) {
                 format!("seg={}", segname),
                 format!("fields={}", match head.fields.len() { 0 => "0", 1..=5 => "1-5", 6..=20 => "6-20", _ => ">20" }),
                 format!("at-max={}", head.fields.len() == max_headers),
+                format!("line-at-limit={}", exact),
                 format!("block>8K={}", wire.len() > 8192),
                 format!("lf-continuation={}", head.fields.iter().any(|f| f.value.contains(&b'\n'))),
                 format!("obs-text={}", head.fields.iter().any(|f| f.value.iter().any(|&b| b >= 0x80))),
